@@ -856,6 +856,10 @@ RULES = {
         ("f : & mut fmt :: Formatter < '_ >", "f : & mut core :: fmt :: Formatter < '_ >"),
         ("-> fmt :: Result", "-> core :: fmt :: Result"),
     ]),
+    "R50": Rule("R50", "iter.fold(INIT, F) -> { let mut it__ = iter; let mut acc__ = INIT; loop { match it__.next() { Some(x__) => { acc__ = F(acc__, x__); } None => break, } } acc__ }  (std: the default method Iterator::fold - `while let Some(x) = self.next() { accum = f(accum, x); }`)",
+                "iter . fold ( $$init , $$f )",
+                "{ let mut it__ = iter ; let mut acc__ = $$init ; loop { match it__ . next ( ) { Some ( x__ ) => { acc__ = $$f ( acc__ , x__ ) ; } None => break , } } acc__ }",
+                guard=lambda e: e["$$init"] and e["$$f"] and "," not in e["$$init"]),
     "R14n": Rule("R14n", "debug_assert_ne!(..); -> (dropped)", "debug_assert_ne ! ( $$c ) ;", ""),
     "R10n": Rule("R10n", "for _ in A..E { BODY } -> { let mut i__ = A; let e__ = E; while i__ < e__ { i__ += 1; BODY } }  (std: Range yields A, .., E-1; bounds evaluated once)",
                  "for _ in $$a .. $$e { $$body }", "{ let mut i__ = $$a ; let e__ = $$e ; while i__ < e__ { i__ += 1 ; $$body } }",
@@ -1320,6 +1324,14 @@ def transplant(annot_text, new_ss):
         if tag == "insert":
             # place right after previous real token
             at = btoks[i1 - 1].b if i1 > 0 else (btoks[0].a if btoks else 0)
+            # tokens that do not end a statement continue into the next real token (`if` before a kept condition,
+            # a new operand before a kept operator): annotations standing between the two real tokens are statements
+            # of their own and must not end up inside that expression, so the new tokens go after them
+            if i1 > 0 and i1 < len(btoks) and new_ss[j2 - 1] not in (";", "}", "{"):
+                nxt = btoks[i1].a
+                for (x, y) in ins_spans:
+                    if at <= x and y <= nxt and y > at:
+                        at = y
             out.append(full[pos:at])
             out.append(" " + join(new_ss[j1:j2]) + " ")
             pos = at
